@@ -188,6 +188,8 @@ type e1 struct {
 	byObj map[*types.Func]*FuncInfo
 	muts  map[*FuncInfo]map[int]bool // param index (recv = -1) -> mutated
 	cache map[*FuncInfo]*e1func
+	inferred  map[*FuncInfo][]*Term
+	inferring map[*FuncInfo]bool
 }
 
 func newE1(c *Ctx, guars []*Guar) *e1 {
@@ -1164,6 +1166,13 @@ func (f *e1func) transfer(st *fstate, n ast.Node, sites *[]*e1site) []*fstate {
 			return []*fstate{st}
 		}
 		var add []*Term
+		for i, r := range s.Rhs {
+			if ce, ok := unparen(r).(*ast.CallExpr); ok {
+				if tv, isT := f.info.Types[ce.Fun]; !(isT && tv.IsType()) {
+					add = append(add, fact("called", rhs[i]))
+				}
+			}
+		}
 		if len(rhs) == 1 && len(lhs) > 1 {
 			if idx, _, _ := f.callStatusIdx(s.Rhs[0]); true {
 				f.statusOf[rhs[0].Key()] = idx
@@ -1468,7 +1477,8 @@ func (f *e1func) okFacts(st *fstate, call *Term, withOk bool) []*Term {
 	}
 	g := f.eng.lookupGuar(call)
 	if g == nil {
-		return out
+		// no declared guarantee: use what the callee provably establishes on every success return (inferred summary)
+		return append(out, f.eng.inferredFacts(f, st, call)...)
 	}
 	b := Bind{}
 	args := call.A
@@ -1496,6 +1506,169 @@ func (f *e1func) okFacts(st *fstate, call *Term, withOk bool) []*Term {
 	for _, p := range g.facts {
 		out = append(out, subst(p, b))
 	}
+	return out
+}
+
+// inferredFacts: facts that hold in every success-return state of the (in-module, non-recursive) callee and mention
+// only its parameters (still holding the caller's values) and results, re-expressed over the call's arguments.
+func (e *e1) inferredFacts(f *e1func, st *fstate, call *Term) []*Term {
+	var callee *FuncInfo
+	switch call.K {
+	case "call":
+		callee = e.c.P.Fn(call.S)
+		if callee == nil {
+			for _, fi := range e.c.P.Funcs {
+				if fi.Obj != nil && fi.Parent == nil && objQual(fi.Obj) == call.S {
+					callee = fi
+					break
+				}
+			}
+		}
+	case "mcall":
+		if fn, ok := call.Obj.(*types.Func); ok {
+			callee = e.byObj[fn]
+		}
+	}
+	if callee == nil || callee.Body == nil || callee == f.fi {
+		return nil
+	}
+	pats := e.inferGuar(callee)
+	if len(pats) == 0 {
+		return nil
+	}
+	b := Bind{}
+	for i, a := range call.A {
+		b[fmt.Sprint("p", i)] = a
+	}
+	ck := call.Key()
+	for _, k := range sortedKeys(st.facts) {
+		fc := st.facts[k]
+		if fc.S == "def" && len(fc.A) == 3 && fc.A[1].Key() == ck {
+			b["r"+fc.A[2].S] = fc.A[0]
+		} else if fc.S == "def" && len(fc.A) == 2 && fc.A[1].Key() == ck {
+			b["r0"] = fc.A[0]
+		}
+	}
+	for i := 0; i < 6; i++ {
+		if _, ok := b[fmt.Sprint("r", i)]; !ok {
+			b[fmt.Sprint("r", i)] = mk("res", fmt.Sprint(i), call)
+		}
+	}
+	var out []*Term
+	for _, p := range pats {
+		t := subst(p, b)
+		if !hasPV(t) {
+			out = append(out, t)
+		}
+	}
+	return out
+}
+
+func (e *e1) inferGuar(fi *FuncInfo) []*Term {
+	if e.inferred == nil {
+		e.inferred = map[*FuncInfo][]*Term{}
+		e.inferring = map[*FuncInfo]bool{}
+	}
+	if r, ok := e.inferred[fi]; ok {
+		return r
+	}
+	if e.inferring[fi] || fi.Sig == nil {
+		return nil
+	}
+	e.inferring[fi] = true
+	defer delete(e.inferring, fi)
+	f := e.analyse(fi)
+	// positional names of receiver+parameters
+	pidx := map[types.Object]string{}
+	n := 0
+	if r := fi.Sig.Recv(); r != nil {
+		pidx[r] = "p0"
+		n = 1
+	}
+	for i := 0; i < fi.Sig.Params().Len(); i++ {
+		pidx[fi.Sig.Params().At(i)] = fmt.Sprint("p", n+i)
+	}
+	keep := map[string]bool{"ok": true, "eq": true, "neq": true, "true": true, "false": true, "is": true, "notis": true, "nil": true, "nonnil": true, "lt": true, "le": true, "has": true, "errIs": true}
+	var common map[string]*Term
+	nStates := 0
+	for _, s := range f.sites {
+		if s.kind != "ret" {
+			continue
+		}
+		for i, st := range s.states {
+			if !s.ok[i] {
+				continue
+			}
+			nStates++
+			ridx := map[types.Object]string{}
+			for j, op := range s.term.A {
+				if op.K == "var" {
+					if _, isParam := pidx[op.Obj]; !isParam {
+						ridx[op.Obj] = fmt.Sprint("r", j)
+					}
+				}
+			}
+			cur := map[string]*Term{}
+			for _, fc := range st.facts {
+				abstract := !factPreds[fc.S]
+				if !keep[fc.S] && !abstract {
+					continue
+				}
+				okFact := true
+				var rename func(t *Term) *Term
+				rename = func(t *Term) *Term {
+					if t.K == "var" {
+						if name, ok := pidx[t.Obj]; ok {
+							if !st.has(fact("orig", t)) {
+								okFact = false
+							}
+							return mk("pv", name)
+						}
+						if name, ok := ridx[t.Obj]; ok {
+							return mk("pv", name)
+						}
+						okFact = false
+						return t
+					}
+					if t.K == "func" {
+						okFact = false
+						return t
+					}
+					if len(t.A) == 0 {
+						return t
+					}
+					nt := &Term{K: t.K, S: t.S, Obj: t.Obj}
+					for _, a := range t.A {
+						nt.A = append(nt.A, rename(a))
+					}
+					return nt
+				}
+				rt := rename(fc)
+				if okFact {
+					cur[rt.Key()] = rt
+				}
+			}
+			if common == nil {
+				common = cur
+			} else {
+				for k := range common {
+					if _, ok := cur[k]; !ok {
+						delete(common, k)
+					}
+				}
+			}
+		}
+	}
+	var out []*Term
+	if nStates > 0 {
+		for _, k := range sortedKeys(common) {
+			out = append(out, common[k])
+			if len(out) >= 40 {
+				break
+			}
+		}
+	}
+	e.inferred[fi] = out
 	return out
 }
 
